@@ -297,7 +297,8 @@ def run_errors(prog, tier, repo):
         if bl.cleanup or t[0] != 'call' or not t[3] or not (callee(t)[1] or '').startswith('std::collections::HashMap'):
             continue
         r, _ = operand_root(rc, t[3][0])
-        if r in grouped and (callee(t)[1] or '').split('::')[-1] in ('contains_key', 'insert', 'entry', 'get', 'get_mut'):
+        if r in grouped and (callee(t)[1] or '').split('::')[-1] in ('contains_key', 'insert', 'entry', 'get', 'get_mut', 'remove',
+                                                                      'remove_entry'):
             pad.append(bi)
     k2 = f'clear:{rc.name}'
     if not grouped or not pad:
